@@ -142,8 +142,12 @@ prop('C11', title='A compiled trust schema matches exactly the names its source 
      level_text='Deciding check (bounded): Checker.match on compile_lvs(text), directly and after load(save()), equals an independent '
                 'reference semantics evaluated on the generator\'s abstract schema, for generated schemas x all names up to length 4.',
      level_note='A proof of the three-pass compiler for all programs is outside what contracts on these functions can express '
-                '(DESIGN.md 6/C11). Deductive fragment (unbounded, pyvc/z3): Checker._check_cons for any number of constraints and '
-                'options - True iff every constraint has a satisfied option.',
+                '(DESIGN.md 6/C11). Deductive fragments (unbounded, pyvc/z3): Checker._check_cons for any number of constraints and '
+                'options - True iff every constraint has a satisfied option; Checker._match on a sanity-checked model for any name and '
+                'initial bindings: stack representation invariant, no run-time error, and soundness of every step (value edge only for an '
+                'equal component; pattern edge only after its constraints held, bound pattern only for an equal value, named pattern '
+                'bound / temporary not; match reported exactly when the name is consumed; backtracking undoes exactly the binding of the '
+                'undone edge). Completeness of the search and termination are not proved.',
      technique=T_BOUNDED)
 prop('C12', title='The signing check holds exactly when the schema lets that key sign that packet', level='exploration',
      bounded=[('bounded.c12', 'run', SH)],
@@ -151,8 +155,8 @@ prop('C12', title='The signing check holds exactly when the schema lets that key
                 'chains / alternatives / shared patterns, for all name pairs up to length 3 (+ matching length-4 names).',
      level_note='Deductive fragments (unbounded, pyvc/z3): Checker.check for any number of matches - True iff some packet match and some '
                 'key match UNDER THAT MATCH\'S BINDINGS reach nodes p, k with k in sign_cons(p), trailing implicit digests (and only those) '
-                'dropped - against an assumed interface of the matcher; _check_cons. Completeness of the backtracking matcher itself '
-                'is only explored, not proved.', technique=T_BOUNDED)
+                'dropped - against an assumed interface of the matcher; _check_cons; step soundness of the matcher _match (see C11). '
+                'Completeness of the backtracking matcher is only explored, not proved.', technique=T_BOUNDED)
 prop('C13', title='Ill-formed schemas and models are rejected; accepted models always terminate', level='fault_enumeration',
      bounded=[('bounded.c13', 'run', SH)],
      level_text='Deciding check (bounded): one injected static error of each documented kind at every position of generated schemas must '
